@@ -14,16 +14,6 @@ Definition tg (k : N) : tag :=
   | _ => [xee; xee; xee; xee; xee; xee; xee; xee]
   end.
 
-(** Adler-32 over the bytes, with conditional subtraction instead of [mod] *)
-Definition ck_step (st : N * N) (x : byte) : N * N :=
-  let a := fst st + Byte.to_N x in
-  let a := if 65521 <=? a then a - 65521 else a in
-  let b := snd st + a in
-  let b := if 65521 <=? b then b - 65521 else b in
-  (a, b).
-Definition cksum (l : list byte) : N :=
-  let r := fold_left ck_step l (1, 0) in snd r * 65536 + fst r.
-
 Definition obs_eqb (a b : N * N) : bool := (fst a =? fst b) && (snd a =? snd b).
 
 Inductive item :=
